@@ -1743,6 +1743,7 @@ class Interp:
                     else:
                         exits.append(s2)
                     continue
+                self._widen_accumulators(stmt, s2)
                 for o in self.exec_block(stmt.body, [s2]):
                     if o.kind in ("normal", "continue"):
                         work.append(o.st)
@@ -1753,6 +1754,27 @@ class Interp:
                         outs.append(o)
         outs += [Out("normal", e) for e in exits]
         return dedup(outs)
+
+    def _widen_accumulators(self, stmt, st: State):
+        """A loop body is interpreted for ONE generic iteration.  A numeric variable the body updates from its own value (a counter, a
+        running sum) therefore holds an arbitrary value at the start of that iteration, not the literal it was initialised with:
+        `n = 0; for x in xs: n += 1` leaves n unknown (0 only on the zero-iteration exit), never the constant 1."""
+        names = getattr(stmt, "_sa_accs", None)
+        if names is None:
+            names = set()
+            for b_ in stmt.body:
+                for n_ in ast.walk(b_):
+                    if isinstance(n_, ast.AugAssign) and isinstance(n_.target, ast.Name):
+                        names.add(n_.target.id)
+                    elif isinstance(n_, ast.Assign) and len(n_.targets) == 1 and isinstance(n_.targets[0], ast.Name) \
+                            and any(isinstance(x_, ast.Name) and x_.id == n_.targets[0].id for x_ in ast.walk(n_.value)):
+                        names.add(n_.targets[0].id)
+            stmt._sa_accs = names
+        for name in names:
+            k = self.var(name)
+            v = st.env.get(k)
+            if v is not None and v.kind == "const" and isinstance(v.val, (int, float)) and not isinstance(v.val, bool):
+                st.env[k] = AV("unk", sym=f"acc:{name}@{stmt.lineno}", none=False)
 
     def exec_try(self, stmt: ast.Try, st: State):
         body_outs = self.exec_block(stmt.body, [st])
